@@ -55,6 +55,7 @@ def plan(tier, seed):
             shards.append(('soup', 'default', 'SMALL', L5, k))
     for k in range(NSHARDS):
         shards.append(('docs', ndocs // NSHARDS, seed * 1000 + k))
+    shards.append(('verbbodies',))
     if tier != 'quick':
         shards += [('fuzz', FUZZ_RUNS, seed * 100 + k + 1) for k in range(NSHARDS)]
     return {'shards': shards,
@@ -66,7 +67,7 @@ def plan(tier, seed):
             # as specials, e.g. the paragraph break, is the library's business)
             'required_classes': ['strict-ok', 'tolerant-returned', 'kind:macro', 'kind:group',
                                  'kind:math', 'kind:environment', 'kind:comment',
-                                 'doc:strict-ok']}
+                                 'doc:strict-ok', 'verbatim-bodies']}
 
 
 ALPHAS = {'SIG': SIG, 'EVERY': ALPHA_EVERY, 'SMALL': SIG_SMALL, 'EXTRA': EXTRA_TOKENS,
@@ -138,7 +139,23 @@ def fuzz_case(s, i):
     return {'kind': 'doc', 'ctx': ('default', 'extra', 'every')[i % 3], 'src': s}
 
 
+# bodies of verbatim-type environments: leading / trailing newlines, blank lines, blanks
+VERB_ENVS = [('default', 'verbatim', ''), ('default', 'lstlisting', ''),
+             ('default', 'lstlisting', '[a=b]'), ('extra', 'vcode', '')]
+VERB_BODIES = ['', 'a', '\na', '\n\na', '\n\n\na\n', ' \n a', 'a\n\n', '\n', '\n\n', ' a b ',
+               '\n{a}%b\n\\c $d$\n']
+
+
 def run_shard(shard, res):
+    if shard[0] == 'verbbodies':
+        for ctxname, env, args in VERB_ENVS:
+            for body in VERB_BODIES:
+                for lead, tail in (('', ''), ('x ', ' y'), ('{', '}')):
+                    s = '%s\\begin{%s}%s%s\\end{%s}%s' % (lead, env, args, body, env, tail)
+                    check_source(s, ctxname, res, {'kind': 'doc', 'ctx': ctxname, 'src': s},
+                                 prefix='doc:')
+        res.label('verbatim-bodies')
+        return
     if shard[0] == 'fuzz':
         from .. import fuzz
         fuzz.campaign(ID, shard[1], shard[2], res)
